@@ -15,7 +15,7 @@ def _init(binary):
 
 
 def run(res):
-    bins = core.build([VARIANT])
+    bins = core.build([VARIANT, "deflt"])
     thorough = res.tier == "thorough"
     maxlen = 7 if thorough else 6
     jobs = []
@@ -27,6 +27,13 @@ def run(res):
         jobs.append(("random", res.seed * 1000 + k, 4000 if thorough else 800, 200 if k % 2 else 40, 0))
     jobs.append(("ranges", 7 if thorough else 6, res.seed))
     out = core.pmap(_run_shard, jobs, init=_init, initargs=(bins[VARIANT],))
+    # range algebra once more in the plain release build: the documented panics must not depend on debug assertions
+    rel = core.Harness(bins["deflt"])
+    try:
+        rjob = ("ranges", 7 if thorough else 6, res.seed + 1)
+        out.append((rjob, rel.json("pos", rjob)))
+    finally:
+        rel.close()
     texts = queries = 0
     for job, r in out:
         texts += r["texts"]
